@@ -440,13 +440,74 @@ func coverPass(u *Unit, obls []*Obligation, dir string) {
 }
 
 var appfitsRe = regexp.MustCompile(`appfits![0-9]+`)
+var orPcRe = regexp.MustCompile(`(?m)^\(define-fun (pc![0-9]+) \(\) Bool \(or (.*)\)\)$`)
 
-// splitRetry re-runs an undecided query once per truth assignment of (at most) the two most recent
-// append-fits conditions. All cases unsat = unsat (the split is exhaustive); one case sat = sat.
+// splitTop splits an s-expression sequence "a (b c) d" into its top-level items.
+func splitTop(s string) []string {
+	var out []string
+	depth, start := 0, -1
+	inBar := false
+	for i := 0; i < len(s); i++ {
+		c := s[i]
+		if c == '|' {
+			inBar = !inBar
+		}
+		if inBar {
+			if start < 0 {
+				start = i
+			}
+			continue
+		}
+		switch {
+		case c == '(':
+			if depth == 0 && start < 0 {
+				start = i
+			}
+			depth++
+		case c == ')':
+			depth--
+			if depth == 0 && start >= 0 {
+				out = append(out, s[start:i+1])
+				start = -1
+			}
+		case c == ' ' || c == '\n' || c == '\t':
+			if depth == 0 && start >= 0 {
+				out = append(out, s[start:i])
+				start = -1
+			}
+		default:
+			if start < 0 {
+				start = i
+			}
+		}
+	}
+	if start >= 0 {
+		out = append(out, s[start:])
+	}
+	return out
+}
+
+// splitRetry re-runs an undecided query by cases: first one case per disjunct of the most recent control-flow merge
+// (the path condition `pc := (or p1 .. pn)` defined last before the obligation), and inside a case that is still
+// undecided one case per truth assignment of the two most recent append-fits conditions. The case splits are
+// exhaustive, so all cases unsat = unsat; a sat case is a model of the original query.
 func splitRetry(o *Obligation, txt string, dir string, timeoutS int, which []solverSpec) *solveResult {
 	idx := strings.LastIndex(txt, "(check-sat)")
 	if idx < 0 {
 		return nil
+	}
+	budget := float64(8 * timeoutS)
+	var cases []string
+	if ms := orPcRe.FindAllStringSubmatch(txt[:idx], -1); len(ms) > 0 {
+		last := ms[len(ms)-1]
+		ds := splitTop(last[2])
+		if len(ds) >= 2 && len(ds) <= 10 {
+			for _, d := range ds {
+				cases = append(cases, "(assert "+d+")\n")
+			}
+			// the merge may not be on the path of this obligation at all: cover the complement too
+			cases = append(cases, "(assert (not "+last[1]+"))\n")
+		}
 	}
 	seen := map[string]bool{}
 	var names []string
@@ -456,9 +517,6 @@ func splitRetry(o *Obligation, txt string, dir string, timeoutS int, which []sol
 			names = append(names, m)
 		}
 	}
-	if len(names) == 0 {
-		return nil
-	}
 	sort.Slice(names, func(i, j int) bool {
 		a, _ := strconv.Atoi(names[i][len("appfits!"):])
 		b, _ := strconv.Atoi(names[j][len("appfits!"):])
@@ -467,29 +525,63 @@ func splitRetry(o *Obligation, txt string, dir string, timeoutS int, which []sol
 	if len(names) > 2 {
 		names = names[:2]
 	}
+	if len(cases) == 0 && len(names) == 0 {
+		return nil
+	}
+	if len(cases) == 0 {
+		cases = []string{""}
+	}
 	total := 0.0
-	for mask := 0; mask < 1<<len(names); mask++ {
-		var extra strings.Builder
-		for i, n := range names {
-			if mask&(1<<i) != 0 {
-				extra.WriteString("(assert " + n + ")\n")
-			} else {
-				extra.WriteString("(assert (not " + n + "))\n")
-			}
-		}
-		sub := &Obligation{id: o.id, unit: o.unit, rawSMT: txt[:idx] + extra.String() + txt[idx:], noSplit: true}
-		subdir := filepath.Join(dir, fmt.Sprintf("split%d", mask))
+	n := 0
+	run := func(extra string) (string, *Obligation) {
+		n++
+		sub := &Obligation{id: o.id, unit: o.unit, rawSMT: txt[:idx] + extra + txt[idx:], noSplit: true}
+		subdir := filepath.Join(dir, fmt.Sprintf("split%d", n))
 		_ = os.MkdirAll(subdir, 0o777)
 		discharge(sub, subdir, timeoutS, which)
 		total += sub.TimeS
-		switch sub.Status {
-		case "discharged":
-			continue
-		case "violated":
-			return &solveResult{status: "sat", solver: "split:" + sub.Solver, secs: total, out: sub.Output}
-		default:
+		if sub.Status != "discharged" && sub.Status != "violated" {
+			total += float64(timeoutS)
+		}
+		return sub.Status, sub
+	}
+	for _, c := range cases {
+		if total > budget {
+			return nil
+		}
+		if c != "" {
+			stt, sub := run(c)
+			if stt == "discharged" {
+				continue
+			}
+			if stt == "violated" {
+				return &solveResult{status: "sat", solver: "split:" + sub.Solver, secs: total, out: sub.Output}
+			}
+		}
+		if len(names) == 0 {
+			return nil
+		}
+		for mask := 0; mask < 1<<len(names); mask++ {
+			if total > budget {
+				return nil
+			}
+			extra := c
+			for i, nm := range names {
+				if mask&(1<<i) != 0 {
+					extra += "(assert " + nm + ")\n"
+				} else {
+					extra += "(assert (not " + nm + "))\n"
+				}
+			}
+			stt, sub := run(extra)
+			if stt == "discharged" {
+				continue
+			}
+			if stt == "violated" {
+				return &solveResult{status: "sat", solver: "split:" + sub.Solver, secs: total, out: sub.Output}
+			}
 			return nil
 		}
 	}
-	return &solveResult{status: "unsat", solver: "split:z3-new/z3/cvc5", secs: total, out: "unsat (case split on " + strings.Join(names, ",") + ")"}
+	return &solveResult{status: "unsat", solver: "split:z3-new/z3/cvc5", secs: total, out: fmt.Sprintf("unsat by exhaustive case split (%d cases)", n)}
 }
